@@ -14,6 +14,15 @@ import (
 var vStartAllSeq int
 
 func init() {
+	// wire setenv <hex name> <hex value | ->: the environment the program reads its defaults from
+	vReg("wire setenv", func(a []string) string {
+		if a[1] == "-" {
+			os.Unsetenv(unhx(a[0]))
+		} else {
+			os.Setenv(unhx(a[0]), unhx(a[1]))
+		}
+		return "ok"
+	})
 	// wire startall <hex yaml>: the whole configuration is started the way main() does it: a cli application whose action
 	// is startProxies (every service of the file, in order), with the configuration in a file. startProxies never returns.
 	vReg("wire startall", func(a []string) string {
